@@ -552,29 +552,29 @@ func Main(m *testing.M, property string) {
 }
 
 type fragment struct {
-	Property    string             `json:"property"`
-	Tier        string             `json:"tier"`
-	Seed        int64              `json:"seed"`
-	Shard       int                `json:"shard"`
-	Shards      int                `json:"shards"`
-	ExitCode    int                `json:"exit_code"`
-	Evaluations int64              `json:"evaluations"`
-	NTHashed    int                `json:"nontrivial_hashed"`
-	NTEnum      int64              `json:"nontrivial_enumerated"`
-	HashFile    string             `json:"hash_file,omitempty"`
-	Classes     map[string]int64   `json:"classes"`
-	PerCheck    map[string]int64   `json:"per_check"`
-	Samples     []sample           `json:"samples"`
-	Violations  []violation        `json:"violations"`
-	KnownHits   map[string]int64   `json:"known_hits"`
-	KnownDesc   map[string]string  `json:"known_desc"`
+	Property    string               `json:"property"`
+	Tier        string               `json:"tier"`
+	Seed        int64                `json:"seed"`
+	Shard       int                  `json:"shard"`
+	Shards      int                  `json:"shards"`
+	ExitCode    int                  `json:"exit_code"`
+	Evaluations int64                `json:"evaluations"`
+	NTHashed    int                  `json:"nontrivial_hashed"`
+	NTEnum      int64                `json:"nontrivial_enumerated"`
+	HashFile    string               `json:"hash_file,omitempty"`
+	Classes     map[string]int64     `json:"classes"`
+	PerCheck    map[string]int64     `json:"per_check"`
+	Samples     []sample             `json:"samples"`
+	Violations  []violation          `json:"violations"`
+	KnownHits   map[string]int64     `json:"known_hits"`
+	KnownDesc   map[string]string    `json:"known_desc"`
 	KnownSample map[string]violation `json:"known_samples"`
-	Rules       []string           `json:"rules"`
-	Exhaustive  []string           `json:"exhaustive"`
-	Notes       map[string]any     `json:"notes"`
-	MaxErr      map[string]float64 `json:"max_normalised_error"`
-	RapidRuns   []map[string]any   `json:"rapid_runs"`
-	WallS       float64            `json:"wall_s"`
+	Rules       []string             `json:"rules"`
+	Exhaustive  []string             `json:"exhaustive"`
+	Notes       map[string]any       `json:"notes"`
+	MaxErr      map[string]float64   `json:"max_normalised_error"`
+	RapidRuns   []map[string]any     `json:"rapid_runs"`
+	WallS       float64              `json:"wall_s"`
 }
 
 func flush(code int) error {
